@@ -1,4 +1,4 @@
 #!/bin/bash
-# usage: seed_intake.sh <worktree name> <property> <seed id>  -- confirm a delivered seed, store it, run the check on it
+# usage: seed_intake.sh <worktree name> <property> <seed id>  -- confirm a delivered seed, store it, run the check on it (scratch copy)
 ./seed_confirm.sh $1 $2 $3 2>&1 | tail -1
-echo "$3: $(./seed_run.sh $3 | tail -1 | grep -o 'violations=[0-9]*')"
+echo "$3: $(./seed_try.sh $3 $2 | tail -1 | grep -o 'violations=[0-9]*')"
